@@ -29,6 +29,13 @@ class C03(Check):
                 for k in range(n)}
         # degenerate supports: user-supplied affinities of extreme scale truncate whole matrices to zero
         for k, rc in enumerate(runs.values()):
+            if k % 5 == 1:
+                # the caller's containers are outputs: whatever they hold on entry (a sentinel, an earlier result), the
+                # rows of vertices without edges come back zero - also after several realizations
+                rc.prior = rng.choice([-1.0, 0.01, 0.5, 7.0])
+                rc.r = rng.choice([2, 3, 4])
+                if rng.random() < 0.7:
+                    rc.recs = rc.recs + [(rc.recs[0][0], rc.recs[0][0], [0] * rc.L)] if rc.lt != "u" else rc.recs + [(rc.recs[0][0], 987654, [1] * rc.L)]
             if rc.init == "f" and k % 4 == 0:
                 sc = rng.choice([1e9, 1e6, 1e3, 1e-9, 1e12])
                 rc.aff = [x * sc for x in rc.aff]
